@@ -43,8 +43,8 @@ LEVEL_NOTE = ('Bounded: streams are the generated family (not all byte '
 ALL = ['raw', 'qcow2', 'vhd', 'vhdx', 'vmdk', 'vdi', 'qed', 'iso', 'gpt', 'luks']
 GENERIC_POINTS = [4, 6, 32, 64, 108, 512, 592, 1536, 32768, 34816, 196608,
                   196624, 262144]
-CAPS_QUICK = {'own': 56, 'own-vmdk': 40, 'vmdk-foreign': 36, 'foreign': 26,
-              'wrapper': 18}
+CAPS_QUICK = {'own': 52, 'own-vmdk': 34, 'vmdk-foreign': 32, 'foreign': 24,
+              'wrapper': 16}
 CAPS_THOROUGH = {'own': 80, 'own-vmdk': 64, 'vmdk-foreign': 48, 'foreign': 32,
                  'wrapper': 28}
 WRAP_BASE = {3, 4, 5, 63, 64, 65, 511, 512, 513, 591, 592, 593}
@@ -260,7 +260,7 @@ def _explore_one(job):
     if mode == 'cand' and len(r.verdicts) == 1 and len(data) > 0:
         (v0, _p), = r.verdicts.items()
         tc = spread(cuts, 6)
-        for kind in ('bytes', 'bytearray', 'memoryview'):
+        for kind in ('bytearray', 'memoryview'):
             tv, tbad = S.typed_run(sysname, data, tc, kind)
             out['typed'].append({'kind': kind, 'same': tv == v0, 'verdict': repr(tv),
                                  'expected': repr(v0), 'bad': tbad[:3], 'cuts': tc})
